@@ -111,9 +111,9 @@ mutual
 theorem resolveAll_strip (db : Name) (names : List Name) (sch : Schema) :
     ∀ (s : Sel) (ichain : List (List Inst)), chainOk db ichain → okSel db names s = true →
       resolveAll false db sch ichain (stripSel db names s) = resolveAll true db sch ichain s
-  | .mk tabs cols subs, ichain, hch, hok => by
+  | .mk tabs cols subs ctes, ichain, hch, hok => by
     simp only [okSel, Bool.and_eq_true] at hok
-    obtain ⟨⟨ht, hc⟩, hs⟩ := hok
+    obtain ⟨⟨⟨ht, hc⟩, hs⟩, hct⟩ := hok
     obtain ⟨sc, g1, g2, g3⟩ := scope_of_okTabs db names tabs ht
     have hch' : chainOk db (sc :: ichain) := by
       intro s' hs' i hi
@@ -123,7 +123,9 @@ theorem resolveAll_strip (db : Name) (names : List Name) (sch : Schema) :
       · exact hch s' hs' i hi
     have g2' : optAll (instLocal db) (List.map (fun t => { t with parts := cut db names true t.parts }) tabs) = some sc := g2
     simp only [stripSel, resolveAll, if_true, g1, g2', Bool.false_eq_true, if_false]
-    rw [resolveAlls_strip db names sch subs (sc :: ichain) hch' hs]
+    rw [resolveAlls_strip db names sch subs (sc :: ichain) hch' hs,
+      resolveAlls_strip db names sch ctes [] (by intro sc' h; simp at h) hct]
+    congr 1
     congr 1
     rw [List.map_map]
     apply List.map_congr_left
@@ -138,6 +140,164 @@ theorem resolveAlls_strip (db : Name) (names : List Name) (sch : Schema) :
     simp only [okSels, Bool.and_eq_true] at hok
     simp only [stripSels, resolveAlls]
     rw [resolveAll_strip db names sch s ichain hch hok.1, resolveAlls_strip db names sch ss ichain hch hok.2]
+end
+
+
+/-! ### the unconditional statement: every reference that denotes something keeps its denotation -/
+
+theorem instLocal_cutT (db : Name) (names : List Name) (t : TRef) :
+    instLocal db (cutT db names t) = instFed db t := by
+  obtain ⟨parts, alias⟩ := t
+  match parts with
+  | [] => simp [instLocal, instFed, cutT, cut_tab, stripParts]
+  | [n] => simp [instLocal, instFed, cutT, cut_tab, stripParts, identLen]
+  | [q, n] =>
+    by_cases h : lower q = db <;> simp [instLocal, instFed, cutT, cut_tab, stripParts, identLen, h]
+  | [a, b, c] =>
+    by_cases h : lower a = db <;> simp [instLocal, instFed, cutT, cut_tab, stripParts, identLen, h]
+  | a :: b :: c :: d :: r =>
+    by_cases h : lower a = db <;> simp [instLocal, instFed, cutT, cut_tab, stripParts, identLen, h]
+
+theorem optAll_cutT (db : Name) (names : List Name) :
+    ∀ tabs : List TRef, optAll (instLocal db) (tabs.map (cutT db names)) = optAll (instFed db) tabs
+  | [] => rfl
+  | t :: r => by simp [optAll, instLocal_cutT, optAll_cutT db names r]
+
+theorem instFed_facts (db : Name) (t : TRef) (i : Inst) (h : instFed db t = some i) :
+    i.db = db ∧ localName t = some (exposed i) := by
+  obtain ⟨parts, alias⟩ := t
+  match parts, h with
+  | [n], h =>
+    simp only [instFed, Option.some.injEq] at h; subst h
+    cases alias <;> simp [localName, exposed]
+  | [q, n], h =>
+    simp only [instFed] at h
+    split at h
+    · simp only [Option.some.injEq] at h; subst h
+      cases alias <;> simp [localName, exposed]
+    · simp at h
+  | [], h => simp [instFed] at h
+  | _ :: _ :: _ :: _, h => simp [instFed] at h
+
+theorem optAll_facts (db : Name) : ∀ (tabs : List TRef) (sc : List Inst), optAll (instFed db) tabs = some sc →
+    ∀ i ∈ sc, i.db = db ∧ exposed i ∈ tabs.filterMap localName
+  | [], sc, h => by simp [optAll] at h; subst h; simp
+  | t :: r, sc, h => by
+    simp only [optAll] at h
+    cases h1 : instFed db t with
+    | none => simp [h1] at h
+    | some i0 =>
+      cases h2 : optAll (instFed db) r with
+      | none => simp [h1, h2] at h
+      | some sc0 =>
+        simp only [h1, h2, Option.some.injEq] at h; subst h
+        intro i hi
+        simp only [List.mem_cons] at hi
+        obtain ⟨f1, f2⟩ := instFed_facts db t i0 h1
+        rcases hi with rfl | hi
+        · exact ⟨f1, by simp [f2]⟩
+        · obtain ⟨g1, g2⟩ := optAll_facts db r sc0 h2 i hi
+          refine ⟨g1, ?_⟩
+          simp only [List.filterMap_cons]
+          split <;> simp [g2]
+
+/-- every instance of every enclosing scope lives in `db` and is referred to by one of `names` -/
+def chainNamed (db : Name) (names : List Name) (ichain : List (List Inst)) : Prop :=
+  ∀ sc ∈ ichain, ∀ i ∈ sc, i.db = db ∧ exposed i ∈ names
+
+theorem matchIdx_none (sch : Schema) (r : List Name) :
+    ∀ (sc : List Inst) (k : Nat), (∀ i ∈ sc, matchesCol true sch i r = false) → matchIdx true sch r k sc = []
+  | [], _, _ => rfl
+  | i :: is, k, hs => by
+    simp only [matchIdx, hs i (by simp), Bool.false_eq_true, if_false, List.nil_append]
+    exact matchIdx_none sch r is (k + 1) (fun j hj => hs j (by simp [hj]))
+
+/-- a two-part reference qualified by the integration name, when nothing in scope is called like that,
+denotes nothing in the original -/
+theorem resolveCol_fed_notFound (db : Name) (names : List Name) (sch : Schema) (q c : Name)
+    (hq : lower q = db) (hn : db ∉ names) :
+    ∀ (ichain : List (List Inst)) (d : Nat), chainNamed db names ichain →
+      resolveCol true sch [q, c] d ichain = .notFound
+  | [], _, _ => rfl
+  | sc :: outer, d, h => by
+    have hno : ∀ i ∈ sc, matchesCol true sch i [q, c] = false := by
+      intro i hi
+      have := (h sc (by simp) i hi).2
+      have hne : lower q ≠ exposed i := fun e => hn (hq ▸ e ▸ this)
+      simp [matchesCol, hne]
+    simp only [resolveCol, matchIdx_none sch [q, c] sc 0 hno]
+    exact resolveCol_fed_notFound db names sch q c hq hn outer (d + 1) (fun s hs => h s (by simp [hs]))
+
+/-- position by position -/
+def keepsAll : List Res → List Res → Prop
+  | [], [] => True
+  | a :: as, b :: bs => Res.keeps a b ∧ keepsAll as bs
+  | _, _ => False
+
+theorem keepsAll_append : ∀ (a1 b1 a2 b2 : List Res), keepsAll a1 b1 → keepsAll a2 b2 → keepsAll (a1 ++ a2) (b1 ++ b2)
+  | [], [], _, _, _, h => h
+  | _ :: as, _ :: bs, a2, b2, h1, h2 => ⟨h1.1, keepsAll_append as bs a2 b2 h1.2 h2⟩
+  | [], _ :: _, _, _, h, _ => h.elim
+  | _ :: _, [], _, _, h, _ => h.elim
+
+theorem keepsAll_map {α} (f g : α → Res) : ∀ l : List α, (∀ x ∈ l, Res.keeps (f x) (g x)) → keepsAll (l.map f) (l.map g)
+  | [], _ => trivial
+  | x :: l, h => ⟨h x (by simp), keepsAll_map f g l (fun y hy => h y (by simp [hy]))⟩
+
+theorem keepsAll_refl : ∀ l : List Res, keepsAll l l
+  | [] => trivial
+  | _ :: l => ⟨Or.inr rfl, keepsAll_refl l⟩
+
+/-- one reference: either the cut does not matter for it, or it denoted nothing to begin with -/
+theorem resolveCol_keeps (db : Name) (names : List Name) (sch : Schema) (r : List Name)
+    (ichain : List (List Inst)) (d : Nat) (h : chainNamed db names ichain) :
+    Res.keeps (resolveCol true sch r d ichain) (resolveCol false sch (cut db names false r) d ichain) := by
+  by_cases hr : okCol db names r = true
+  · exact Or.inr (resolveCol_cut db names sch r hr ichain d (fun sc hsc i hi => (h sc hsc i hi).1))
+  · match r, hr with
+    | [q, c], hr =>
+      simp only [okCol, Bool.or_eq_true, decide_eq_true_eq, not_or, Decidable.not_not] at hr
+      have hn : db ∉ names := by simpa using hr.2
+      exact Or.inl (resolveCol_fed_notFound db names sch q c hr.1 hn ichain d h)
+    | [], hr => simp [okCol] at hr
+    | [_], hr => simp [okCol] at hr
+    | _ :: _ :: _ :: _, hr => simp [okCol] at hr
+
+mutual
+theorem resolveAll_keeps (db : Name) (names : List Name) (sch : Schema) :
+    ∀ (s : Sel) (ichain : List (List Inst)), chainNamed db names ichain → (∀ n ∈ aliasesOf s, n ∈ names) →
+      keepsAll (resolveAll true db sch ichain s) (resolveAll false db sch ichain (stripSel db names s))
+  | .mk tabs cols subs ctes, ichain, hch, hsub => by
+    simp only [aliasesOf, List.mem_append] at hsub
+    have hc := resolveAlls_keeps db names sch ctes [] (by intro sc h; simp at h) (fun n hn => hsub n (Or.inr hn))
+    have g2 : optAll (instLocal db) (List.map (fun t => { t with parts := cut db names true t.parts }) tabs) =
+        optAll (instFed db) tabs := optAll_cutT db names tabs
+    simp only [stripSel, resolveAll, if_true, Bool.false_eq_true, if_false, g2]
+    apply keepsAll_append _ _ _ _ hc
+    cases hop : optAll (instFed db) tabs with
+    | none => exact ⟨Or.inr rfl, trivial⟩
+    | some sc =>
+      have hch' : chainNamed db names (sc :: ichain) := by
+        intro s' hs' i hi
+        simp only [List.mem_cons] at hs'
+        rcases hs' with rfl | hs'
+        · obtain ⟨f1, f2⟩ := optAll_facts db tabs _ hop i hi
+          exact ⟨f1, hsub _ (Or.inl (Or.inl f2))⟩
+        · exact hch s' hs' i hi
+      simp only []
+      apply keepsAll_append
+      · rw [List.map_map]
+        exact keepsAll_map _ _ cols (fun r _ => resolveCol_keeps db names sch r (sc :: ichain) 0 hch')
+      · exact resolveAlls_keeps db names sch subs (sc :: ichain) hch' (fun n hn => hsub n (Or.inl (Or.inr hn)))
+theorem resolveAlls_keeps (db : Name) (names : List Name) (sch : Schema) :
+    ∀ (ss : Sels) (ichain : List (List Inst)), chainNamed db names ichain → (∀ n ∈ aliasesOfs ss, n ∈ names) →
+      keepsAll (resolveAlls true db sch ichain ss) (resolveAlls false db sch ichain (stripSels db names ss))
+  | .nil, _, _, _ => by simp [stripSels, resolveAlls, keepsAll]
+  | .cons s ss, ichain, hch, hsub => by
+    simp only [aliasesOfs, List.mem_append] at hsub
+    simp only [stripSels, resolveAlls]
+    exact keepsAll_append _ _ _ _ (resolveAll_keeps db names sch s ichain hch (fun n hn => hsub n (Or.inl hn)))
+      (resolveAlls_keeps db names sch ss ichain hch (fun n hn => hsub n (Or.inr hn)))
 end
 
 end MindsVerif.Route
